@@ -36,6 +36,12 @@ class NohBlackBoxEos(ExactSolver):
             self.symmetry = initial_conditions['symmetry']
             self.initial_conditions =initial_conditions # Maybe refactor this later so users can change initial conditions. For now focus on black box eos interaction.
             self.residual_funciton = pressure_noh_residual(self.initial_conditions, self.eos)
+            # the state ahead of the shock returned by _run is the one the jump conditions are solved for
+            if 'rho0' not in kwargs:
+                self.rho0 = initial_conditions['density']
+            if 'u0' not in kwargs:
+                self.u0 = initial_conditions['velocity']
+            self.p0 = initial_conditions['pressure']
 
             if self.geometry not in [1, 2, 3]:
                 raise ValueError("geometry must be 1, 2, or 3")
